@@ -273,7 +273,16 @@ func newRunEnv() *runEnv {
 			e.mu.Unlock()
 			return "", errSentinel
 		},
-		"id": func(v interface{}) interface{} { return v },
+		// a (value, error) helper: a usable struct together with the sentinel error
+		"failrec": func(id int) (vRec, error) {
+			e.mu.Lock()
+			e.calls = append(e.calls, probeCall{"fail", id, nil})
+			e.mu.Unlock()
+			return vRec{Name: "n"}, errSentinel
+		},
+		// a Go-variadic helper
+		"vcount": func(xs ...interface{}) int { return len(xs) },
+		"id":     func(v interface{}) interface{} { return v },
 		// a helper that fills defaults into its options (as tag / form helpers do): the map it receives
 		// when called without options must be its own
 		"opt": func(opts map[string]interface{}) int {
@@ -310,6 +319,11 @@ func (e *runEnv) context(data map[string]absVal) *plush.Context {
 		}
 		ctx.Set(k, materialize(v, e))
 	}
+	// getx(): the value bound to x, handed to the template as a helper's result (no variable read)
+	if x, ok := data["x"]; ok && x.T != "gofn" {
+		gx := materialize(x, e)
+		ctx.Set("getx", func() interface{} { return gx })
+	}
 	ctx.Set("partialFeeder", func(name string) (string, error) {
 		if s, ok := e.parts[name]; ok {
 			return s, nil
@@ -331,7 +345,7 @@ type observation struct {
 	Hang  bool   `json:"hang,omitempty"`
 }
 
-var hangCount int32
+var hangCount, slowCount int32
 var hangMu sync.Mutex
 
 // guarded runs f with recover and a watchdog.
@@ -358,6 +372,21 @@ func guarded(timeout time.Duration, f func() (string, error)) observation {
 	case o := <-ch:
 		return o
 	case <-time.After(timeout):
+	}
+	// Not back within the watchdog.  On a loaded machine that is not yet a hang: keep waiting for the
+	// same call, twenty times longer (at least a minute); only a call that is still running then is
+	// reported as one.  A call that does come back is an ordinary (slow) observation.
+	ext := 20 * timeout
+	if ext < time.Minute {
+		ext = time.Minute
+	}
+	select {
+	case o := <-ch:
+		hangMu.Lock()
+		slowCount++
+		hangMu.Unlock()
+		return o
+	case <-time.After(ext):
 		hangMu.Lock()
 		hangCount++
 		hangMu.Unlock()
